@@ -5,20 +5,6 @@ go 1.23
 require (
 	github.com/anishathalye/porcupine v1.3.0
 	github.com/jirenius/go-res v0.0.0
-	github.com/nats-io/nats.go v1.10.0
-	golang.org/x/tools v0.29.0
-)
-
-require (
-	github.com/jirenius/keylock v1.0.0 // indirect
-	github.com/jirenius/taskqueue v1.1.0 // indirect
-	github.com/jirenius/timerqueue v1.0.0 // indirect
-	github.com/nats-io/jwt v0.3.2 // indirect
-	github.com/nats-io/nkeys v0.1.4 // indirect
-	github.com/nats-io/nuid v1.0.1 // indirect
-	golang.org/x/crypto v0.0.0-20200323165209-0ec3e9974c59 // indirect
-	golang.org/x/mod v0.22.0 // indirect
-	golang.org/x/sync v0.10.0 // indirect
 )
 
 replace github.com/jirenius/go-res => /repo
